@@ -152,6 +152,12 @@ def tlc(module, cfg, workdir, workers=2, timeout=900, args=(), env=None, tag="tl
         raise ToolError("TLC timeout (%ss) on %s %s" % (timeout, module, os.path.basename(cfg)))
     r = parse_tlc(out)
     r["rc"] = rc
+    # action coverage (only present when -coverage was requested): name -> states generated by the action
+    cov = {}
+    for m in re.finditer(r"^<(\w+) line \d+, col \d+ to line \d+, col \d+ of module (\w+)>: (\d+):(\d+)", out, re.M):
+        cov[m.group(1)] = max(cov.get(m.group(1), 0), int(m.group(4)))
+    if cov:
+        r["actions"] = cov
     return r, out
 
 
@@ -171,6 +177,21 @@ def tlc_cached(key, fn, deps=None):
     json.dump(r, open(p, "w"))
     r["cached"] = False
     return r
+
+
+def check_vacuity(name, results, ignore=()):
+    """Every action of an implementation model must have been taken in at least one exhaustive configuration
+    (a property cannot pass by never being exercised). `results` carry the `actions` maps of -coverage runs."""
+    total = {}
+    for r in results:
+        for a, n in (r.get("actions") or {}).items():
+            total[a] = total.get(a, 0) + n
+    if not total:
+        return {}
+    dead = sorted(a for a, n in total.items() if n == 0 and a not in ignore and a != "Init")
+    if dead:
+        raise ToolError("%s: actions never taken in any exhaustive configuration (vacuous model): %s" % (name, dead))
+    return total
 
 
 def pmap(fn, items, par=None):
